@@ -581,8 +581,14 @@ def run_check(prop, tier, seed):
         "assumptions": spec.get("assumptions", []), "wall_s": round(time.time() - t0, 2),
         "violations": len(violations),
     }
-    os.makedirs(os.path.join(ROOT, "evidence"), exist_ok=True)
-    with open(os.path.join(ROOT, "evidence", prop + ".json"), "w") as f:
+    # evidence/ describes the tree the registered commands check (/repo); a run against another tree (VERIF_REPO: seeded
+    # changes, proposed fixes) writes its evidence next to its other scratch output instead
+    evdir = os.path.join(ROOT, "evidence")
+    if os.environ.get("VERIF_REPO", "/repo") not in ("/repo", ""):
+        evdir = os.path.join(tempfile.gettempdir(), "verif-evidence-othertree")
+        ev["tree"] = os.environ["VERIF_REPO"]
+    os.makedirs(evdir, exist_ok=True)
+    with open(os.path.join(evdir, prop + ".json"), "w") as f:
         json.dump(ev, f, indent=1, sort_keys=True)
 
     for n in notes[:10]:
